@@ -302,10 +302,15 @@ func (o *c13Oracle) post(i *IRCServer, idx int, e ircgen.Entry, outs []out, pan 
 				}
 			}
 		}
-		// used: the session became a member of a restricted channel
+		// used: the session became a member of a restricted channel by its own JOIN. A session that
+		// services put into the channel (SVSJOIN) has not used its invitation: it still holds it,
+		// unused, when it is kicked and comes back (false alarm at seed 1 once services links became
+		// more frequent in the histories: the oracle had voided the invitation on any way of becoming
+		// a member)
+		own := e.Kind == "irc" && k == fmt.Sprintf("c:%d", e.Session)
 		for cn, qc := range post.chans {
 			pc := pre.chans[cn]
-			if pc != nil && qc.members[k] && !pc.members[k] && (strings.Contains(pc.modes, "i") || strings.Contains(pc.modes, "x")) && o.invites[k] != nil {
+			if own && pc != nil && qc.members[k] && !pc.members[k] && (strings.Contains(pc.modes, "i") || strings.Contains(pc.modes, "x")) && o.invites[k] != nil {
 				delete(o.invites[k], cn)
 			}
 		}
